@@ -191,6 +191,11 @@ def build(ctx):
     T('tr_SO2_SE2_act', [('X', 'M22'), ('p', 'V2')], lambda X, p: so2(X).SE2() * p, sampler=lambda rng: s_rot2()(rng) + [rng.normal(size=2)], alloc=True)
     T('tr_SE2_SE3', [('X', 'M33')], lambda X: se2(X).SE3().A, sampler=s_se2(), alloc=True)
     T('tr_SE2_SE3z', [('X', 'M33'), ('z', 'S')], lambda X, z: se2(X).SE3(z).A, sampler=lambda rng: s_se2()(rng) + [float(rng.normal())], alloc=True)
+    # multi-valued object: each element of the lifted SE3 is the lift of the corresponding element (not of a shared buffer)
+    for k_ in (0, 1):
+        T(f'tr_SE2_SE3_multi{k_}', [('X', 'M33'), ('Y', 'M33'), ('z', 'S')],
+          (lambda k_: lambda X, Y, z: SE2([se2(X), se2(Y)]).SE3(z)[k_].A)(k_),
+          sampler=lambda rng: s_se2(2)(rng) + [float(rng.normal())], alloc=True)
     T('tr_SE2_mul_SE3', [('X', 'M33'), ('Y', 'M33')], lambda X, Y: (se2(X) * se2(Y)).SE3().A, sampler=s_se2(2), alloc=True)
     T('tr_SE2_SE3_mul', [('X', 'M33'), ('Y', 'M33')], lambda X, Y: (se2(X).SE3() * se2(Y).SE3()).A, sampler=s_se2(2), alloc=True)
     T('tr_SE2_inv_SE3', [('X', 'M33')], lambda X: se2(X).inv().SE3().A, sampler=s_se2(), alloc=True)
@@ -226,6 +231,11 @@ def build(ctx):
         T(f'tr_Tw3_{nm}_S', [('t', 'S')], (lambda nm: lambda t: getattr(Twist3, nm)(t).S)(nm), sampler=ang_nz, optional=True)
         T(f'tr_Tw3_{nm}_SE3', [('t', 'S')], (lambda nm: lambda t: getattr(Twist3, nm)(t).SE3().A)(nm), sampler=ang_nz, alloc=True, optional=True)
         T(f'tr_Tw3_{nm}_exp', [('t', 'S')], (lambda nm: lambda t: getattr(Twist3, nm)(t).exp().A)(nm), sampler=ang_nz, alloc=True, optional=True)
+    # all options together: angle in degrees AND a translation t (SE3 only) -- same rotation block as SO3.R?(a, 'deg'), translation t
+    s_at = lambda rng: [float(rng.uniform(-170, 170)), rng.normal(size=3)]      # noqa: E731
+    for nm in ('Rx', 'Ry', 'Rz'):
+        T(f'tr_SE3_{nm}_deg_t', [('a', 'S'), ('v', 'V3')], (lambda nm: lambda a, v: getattr(SE3, nm)(a, 'deg', t=v).A)(nm), sampler=s_at, alloc=True)
+        T(f'tr_SO3_{nm}_deg', [('a', 'S')], (lambda nm: lambda a: getattr(SO3, nm)(a, 'deg').A)(nm), sampler=lambda rng: [float(rng.uniform(-170, 170))], alloc=True)
     T('tr_SO2_ang', [('t', 'S')], lambda t: SO2(t).A, sampler=ang, alloc=True)
     T('tr_SE2_ang', [('t', 'S')], lambda t: SE2(0, 0, t).A, sampler=ang, alloc=True, optional=True)
     s_tv = lambda rng: [float(rng.uniform(-3, 3)), rand_unit(rng) * log_uniform(rng, 0.2, 5)]     # noqa: E731
@@ -333,10 +343,7 @@ TOL = 1e-6
 
 # sub-check keys under which every kind of failure (exception of any type, NaN, wrong value) has ONE known root cause, the
 # matrix logarithm the twist classes are built on (base.trlog / trlog2, property C03): there the outcome is not part of the key
-LOG_HAZARD = ('conv:SE3->Twist3->SE3:near0', 'conv:SE3->Twist3->SE3:towardspi', 'conv:SE2->Twist2->SE2:near-half-turn',
-              'conv:SE2->Twist2->SE2:large-translation',
-              'tree:Twist3:log-near-identity', 'tree:Twist3:log-near-half-turn',
-              'tree:Twist2:log-near-half-turn', 'tree:Twist2:log-large-translation')
+LOG_HAZARD = ()      # empty since /repo 84bd1d7 (trlog) and c4462a7 (closed-form trlog2): no cell is exempt from the outcome-specific keys
 
 
 class Oracle:
@@ -382,6 +389,23 @@ class Oracle:
                 ok = False
             out.append(X)
         return out if ok else None
+
+    def elems(self, key, make, refs, getM, inputs, scale=1.0, gkey=None):
+        """multi-valued object: right length, and element k is refs[k] (compared as matrices)"""
+        X = self.guard(gkey or key, make, inputs)      # gkey: coarser key for "the call itself fails" (one root cause, many option cells)
+        if X is None:
+            return None
+        n = self.guard(gkey or key, lambda: len(X), inputs)
+        self.ctx.count('oracle:' + key)
+        self.ctx.case((key, 'len', tuple(np.asarray(inputs, float).flatten()[:12])))
+        if n != len(refs):
+            self.ctx.fail(self.fk(key, 'length'), f"{key}: result has {n} element(s), expected {len(refs)}", {'law': key, 'inputs_hex': _hex(inputs)})
+            return None
+        for k_, ref in enumerate(refs):
+            M = self.guard(key, lambda: getM(X[k_]) if len(refs) > 1 or hasattr(X, '__getitem__') else getM(X), inputs)
+            if M is not None:
+                self.cmp(key, M, ref, inputs, scale, aux={'element': k_, 'of': len(refs)})
+        return X
 
     def guard(self, key, thunk, inputs, aux=None):
         """run a library call; an exception is a finding keyed by the exception type"""
@@ -442,25 +466,8 @@ def rot_angle(T):
 
 
 def log_hazard(tree, Ts):
-    """where the matrix logarithm used by the twist classes is known to break (root causes in C03's functions):
-    3-D: an intermediate result within 1e-7 of the identity (NaN / exceptions), a leaf or intermediate within 1e-3 of a half
-    turn (loss of accuracy); 2-D (scipy logm returns a complex matrix): a leaf or intermediate with pi - |angle| < 0.15, or
-    with a translation above 3e4"""
-    acc = []
-    ref_nodes(tree, Ts, acc)
-    used = [Ts[i] for i in sorted(tree_leaves(tree))]
-    inner = [rot_angle(T) for T in acc]
-    every = inner + [rot_angle(T) for T in used]
-    if Ts[0].shape[0] == 4:
-        if any(a < 1e-7 for a in inner):
-            return ':log-near-identity'        # includes X * inv(X): the library's product is I only up to rounding
-        if any(math.pi - a < 1e-3 for a in every):
-            return ':log-near-half-turn'
-        return ''
-    if any(math.pi - a < 0.15 for a in every):
-        return ':log-near-half-turn'
-    if any(float(np.max(np.abs(T[:2, 2]))) > 3e4 for T in acc + used):
-        return ':log-large-translation'
+    """formerly classified the cells where trlog / trlog2 were known to break (near the identity, near a half turn, large
+    translations); repaired in /repo 84bd1d7 and c4462a7, so every tree is now held to the same tolerance under the same key"""
     return ''
 
 
@@ -571,7 +578,7 @@ def oracle_trees3(o, rng, ntrees, depth):
             if X is not None:
                 Y = o.guard('tree:UDQ', lambda: X.SE3().A, inp)
                 if Y is not None:
-                    o.cmp('tree:UDQ', Y, refT, inp, scale * max(1.0, scale * 1e-3))
+                    o.cmp('tree:UDQ', Y, refT, inp, scale)
         # --- Twist3 (through log / exp)
         L = o.leaves('conv:SE3->Twist3->SE3', Ts, kinds, lambda T: Twist3(SE3(T, check=False)), lambda tw: tw.SE3().A, tsc)
         if L is not None:
@@ -580,7 +587,7 @@ def oracle_trees3(o, rng, ntrees, depth):
             if X is not None:
                 Y = o.guard('tree:Twist3' + hz, lambda: X.SE3().A, inp)
                 if Y is not None:
-                    o.cmp('tree:Twist3' + hz, Y, refT, inp, scale * max(1.0, scale * 1e-3), aux={'tree': tree_str(tree)})
+                    o.cmp('tree:Twist3' + hz, Y, refT, inp, scale, aux={'tree': tree_str(tree)})
 
 
 def oracle_trees2(o, rng, ntrees, depth):
@@ -628,15 +635,14 @@ def oracle_trees2(o, rng, ntrees, depth):
                 if Y is not None:
                     o.cmp('tree:SE2.SE3', Y, ref3, inp, scale)
         tsc = lambda T: max(1.0, float(np.max(np.abs(T[:-1, -1]))))      # noqa: E731
-        k2 = [k if (k == 'near-half-turn' or float(np.max(np.abs(T[:2, 2]))) <= 3e4) else 'large-translation' for k, T in zip(kinds, Ts)]
-        L = o.leaves('conv:SE2->Twist2->SE2', Ts, k2, lambda T: Twist2(SE2(T, check=False)), lambda tw: tw.SE2().A, tsc)
+        L = o.leaves('conv:SE2->Twist2->SE2', Ts, kinds, lambda T: Twist2(SE2(T, check=False)), lambda tw: tw.SE2().A, tsc)
         if L is not None:
             hz = log_hazard(tree, Ts)
             X = o.guard('tree:Twist2' + hz, lambda: eval_tree(tree, L, lambda a, b: a * b, lambda a: a.inv()), inp, aux={'tree': tree_str(tree)})
             if X is not None:
                 Y = o.guard('tree:Twist2' + hz, lambda: X.SE2().A, inp)
                 if Y is not None:
-                    o.cmp('tree:Twist2' + hz, Y, refT, inp, scale * max(1.0, scale * 1e-3), aux={'tree': tree_str(tree)})
+                    o.cmp('tree:Twist2' + hz, Y, refT, inp, scale, aux={'tree': tree_str(tree)})
 
 
 # ---- embeddings act on points as the embedded object does -----------------------------------------------------------
@@ -739,6 +745,33 @@ def oracle_constructors(o, rng, n):
                 tw = o.guard(f'ctor:{nm}:{unit}:Twist3:list-angle', lambda: getattr(Twist3, nm)([th * k], unit).SE3().A, [th])
                 if tw is not None:
                     o.cmp(f'ctor:{nm}:{unit}:Twist3:list-angle', tw, _T(ref(th), [0, 0, 0]), [th])
+            # full cross product of the options: unit x translation t (SE3; Twist3.Ry/Rz also take t) x scalar / vector of angles
+            thv = np.array([near_special_angle(rng) for _ in range(int(rng.integers(2, 5)))])
+            tt = trans_upto(rng, log_uniform(rng, 1e-3, 1e6))
+            for nm, ref in (('Rx', _rx), ('Ry', _ry), ('Rz', _rz)):
+                for tform, tv in (('t', tt), ('no-t', None)):
+                    for aform, av in (('scalar', th), ('vector', thv)):
+                        refs = [_T(ref(a), tv if tv is not None else [0, 0, 0]) for a in np.atleast_1d(av)]
+                        kw = {} if tv is None else {'t': tv}
+                        arg = av * k if aform == 'scalar' else list(av * k)
+                        inp = np.r_[np.atleast_1d(av), tt]
+                        o.elems(f'ctor:{nm}:{unit}:{tform}:{aform}:SE3', lambda: getattr(SE3, nm)(arg, unit, **kw), refs, lambda x: x.A, inp, max(1.0, float(np.max(np.abs(tt)))) if tv is not None else 1.0)
+                        if nm != 'Rx' and tv is not None:
+                            # Twist3.Ry / Rz also offer t=: one cell per constructor (the option is either honoured or not)
+                            o.elems(f'ctor:{nm}:t-option:Twist3', lambda: getattr(Twist3, nm)(arg, unit, **kw), refs, lambda x: x.SE3().A, inp, max(1.0, float(np.max(np.abs(tt)))))
+                        if tv is None and aform == 'vector':
+                            r3 = [M[:3, :3] for M in refs]
+                            o.elems(f'ctor:{nm}:{unit}:vector:SO3', lambda: getattr(SO3, nm)(arg, unit), r3, lambda x: x.A, inp)
+                            o.elems(f'ctor:{nm}:{unit}:vector:UQ', lambda: getattr(UnitQuaternion, nm)(arg, unit), r3, lambda x: x.R, inp)
+                            o.elems(f'ctor:{nm}:{unit}:vector:Twist3', lambda: getattr(Twist3, nm)(arg, unit), refs, lambda x: x.SE3().A, inp)
+            r2s = [np.array([[math.cos(a), -math.sin(a)], [math.sin(a), math.cos(a)]]) for a in thv]
+            o.elems(f'ctor:SO2:{unit}:vector', lambda: SO2(list(thv * k), unit=unit), r2s, lambda x: x.A, thv)
+            # RPY / Eul with an N x 3 array of angles, every order x unit
+            A3 = np.array([[near_special_angle(rng) if rng.random() < 0.3 else rng.uniform(-math.pi, math.pi) for _ in range(3)] for _ in range(int(rng.integers(2, 5)))])
+            for cname, cls, getR in classes3:
+                for order in ('zyx', 'xyz', 'yxz'):
+                    o.elems(f'ctor:RPY:{order}:{unit}:Nx3:{cname}', lambda: cls.RPY(A3 * k, order=order, unit=unit), [_rpy(a, order) for a in A3], getR, A3, gkey=f'ctor:RPY:Nx3:{cname}')
+                o.elems(f'ctor:Eul:{unit}:Nx3:{cname}', lambda: cls.Eul(A3 * k, unit=unit), [_eul(a) for a in A3], getR, A3, gkey=f'ctor:Eul:Nx3:{cname}')
             # planar
             R2 = np.array([[math.cos(th), -math.sin(th)], [math.sin(th), math.cos(th)]])
             Y = o.guard(f'ctor:SO2:{unit}', lambda: SO2(th * k, unit=unit).A, [th])
@@ -813,6 +846,56 @@ def oracle_structure(o, rng, n):
         same_q('UQ(matrix)=r2q', UnitQuaternion(R).vec, R, R)
 
 
+def oracle_multi(o, rng, n):
+    """every conversion / embedding on MULTI-valued objects (2..4 elements), element by element"""
+    for _ in range(n):
+        N = int(rng.integers(2, 5))
+        ths = [float(rng.uniform(-3, 3)) for _ in range(N)]
+        R2s = [np.array([[math.cos(a), -math.sin(a)], [math.sin(a), math.cos(a)]]) for a in ths]
+        t2s = [trans_upto(rng, 10.0, 2) for _ in range(N)]
+        T2s = [_T(R, t) for R, t in zip(R2s, t2s)]
+        R3s = [rot_kind(rng)[0] for _ in range(N)]
+        t3s = [trans_upto(rng, 10.0) for _ in range(N)]
+        T3s = [_T(R, t) for R, t in zip(R3s, t3s)]
+        z = float(rng.normal())
+        inp2, inp3 = np.r_[ths, np.array(t2s).flatten()], np.r_[np.array(R3s).flatten(), np.array(t3s).flatten()]
+        so2 = o.guard('multi:SO2', lambda: SO2([SO2(R, check=False) for R in R2s]), inp2)
+        se2 = o.guard('multi:SE2', lambda: SE2([SE2(T, check=False) for T in T2s]), inp2)
+        so3 = o.guard('multi:SO3', lambda: SO3([SO3(R, check=False) for R in R3s]), inp3)
+        se3 = o.guard('multi:SE3', lambda: SE3([SE3(T, check=False) for T in T3s]), inp3)
+
+        def lift(T):
+            L = np.eye(4)
+            L[:2, :2], L[:2, 3], L[2, 3] = T[:2, :2], T[:2, 2], z
+            return L
+        if so2 is not None:
+            o.elems('multi:SO2.SE2', lambda: so2.SE2(), [_T(R, [0, 0]) for R in R2s], lambda x: x.A, inp2)
+        if se2 is not None:
+            o.elems('multi:SE2.SE3', lambda: se2.SE3(z), [lift(T) for T in T2s], lambda x: x.A, inp2, 10.0)
+            o.elems('multi:SE2.SE3:hom', lambda: (se2 * se2.inv() * se2).SE3(z), [lift(T) for T in T2s], lambda x: x.A, inp2, 10.0)
+            o.elems('multi:SE2.SE3:hom', lambda: se2.SE3(z) * se2.SE3(0.0), [lift(T) @ (lift(T) - np.diag([0, 0, 0, 0]) + np.array([[0, 0, 0, 0], [0, 0, 0, 0], [0, 0, 0, -z], [0, 0, 0, 0]])) for T in T2s], lambda x: x.A, inp2, 100.0)
+            tw2 = o.elems('multi:SE2.Twist2()', lambda: se2.Twist2(), T2s, lambda x: x.SE2().A, inp2, 10.0)
+            o.elems('multi:Twist2(SE2)', lambda: Twist2(se2), T2s, lambda x: x.SE2().A, inp2, 10.0)
+            if tw2 is not None:
+                o.elems('multi:Twist2.SE2', lambda: tw2.SE2(), T2s, lambda x: x.A, inp2, 10.0)
+                o.elems('multi:Twist2.exp', lambda: tw2.exp(), T2s, lambda x: x.A, inp2, 10.0)
+        if so3 is not None:
+            o.elems('multi:SE3.SO3(SO3)', lambda: SE3.SO3(so3), [_T(R, [0, 0, 0]) for R in R3s], lambda x: x.A, inp3)
+            uq = o.elems('multi:UQ(SO3)', lambda: UnitQuaternion(so3), R3s, lambda x: x.R, inp3)
+            if uq is not None:
+                o.elems('multi:UQ.SO3', lambda: uq.SO3(), R3s, lambda x: x.A, inp3)
+                o.elems('multi:UQ.SE3', lambda: uq.SE3(), [_T(R, [0, 0, 0]) for R in R3s], lambda x: x.A, inp3)
+                o.elems('multi:UQ.R', lambda: uq.R, R3s, lambda x: x, inp3)
+                o.elems('multi:UQ*UQ.inv*UQ', lambda: uq * uq.inv() * uq, R3s, lambda x: x.R, inp3)
+        if se3 is not None:
+            tw = o.elems('multi:SE3.Twist3()', lambda: se3.Twist3(), T3s, lambda x: x.SE3().A, inp3, 10.0)
+            o.elems('multi:Twist3(SE3)', lambda: Twist3(se3), T3s, lambda x: x.SE3().A, inp3, 10.0)
+            if tw is not None:
+                o.elems('multi:Twist3.SE3', lambda: tw.SE3(), T3s, lambda x: x.A, inp3, 10.0)
+                o.elems('multi:Twist3.exp', lambda: tw.exp(), T3s, lambda x: x.A, inp3, 10.0)
+                o.elems('multi:Twist3*Twist3', lambda: tw * tw.inv() * tw, T3s, lambda x: x.SE3().A, inp3, 10.0)
+
+
 def oracle(ctx):
     o = Oracle(ctx)
     rng = ctx.rng
@@ -822,3 +905,4 @@ def oracle(ctx):
     oracle_double_cover(o, rng, ctx.n(300, 20000))
     oracle_constructors(o, rng, ctx.n(120, 10000))
     oracle_structure(o, rng, ctx.n(100, 5000))
+    oracle_multi(o, rng, ctx.n(60, 5000))
